@@ -16,10 +16,10 @@ func init() {
 }
 
 // Queries through and on the links.
-var Ops = []string{"Stat", "Lstat", "ReadFile", "ReadDir", "Chmod", "Truncate", "MkdirBelow", "EvalSymlinks", "Readlink", "Remove", "Rename", "Lchown", "Link", "OpenCreate"}
+var Ops = []string{"Stat", "Lstat", "ReadFile", "ReadDir", "Chmod", "Truncate", "MkdirBelow", "EvalSymlinks", "Readlink", "Remove", "Rename", "Lchown", "Link", "OpenCreate", "RenameOnto"}
 
 // NumOps is len(Ops).
-const NumOps = 14
+const NumOps = 15
 
 // query paths through the link names c and a/c
 var queries = []string{"/w/c", "/w/c/a", "/w/a/c", "/w/a/c/a", "/w/c/c", "/w/c/b"}
@@ -70,6 +70,15 @@ func HLink(op, links, n1, n2 int) {
 		must(c)
 		must(c2)
 		c, c2 = w.OpenWrite("/w/b", 1|0x40|0x200, 0o644, []byte("yy"))
+		must(c)
+		must(c2)
+		// siblings whose names extend the name of a link's directory (/w -> /wb, a -> ab)
+		must(w.MkdirAll("/wb", 0o755))
+		c, c2 = w.OpenWrite("/wb/a", 1|0x40|0x200, 0o644, []byte("wb"))
+		must(c)
+		must(c2)
+		must(w.Mkdir("/w/ab", 0o755))
+		c, c2 = w.OpenWrite("/w/ab/a", 1|0x40|0x200, 0o644, []byte("ab"))
 		must(c)
 		must(c2)
 		must(w.Symlink(a, "/w/c"))
@@ -127,6 +136,9 @@ func HLink(op, links, n1, n2 int) {
 			return w.Lchown(q, 7, 8), ""
 		case "Link":
 			return w.Link(q, "/w/z"), ""
+		case "RenameOnto":
+			// the link itself is replaced, never followed
+			return w.Rename("/w/b", q), ""
 		case "OpenCreate":
 			c, c2 := w.OpenWrite(q, 1|0x40, 0o644, []byte("n"))
 			return c, hx.Itoa(c2)
@@ -155,9 +167,17 @@ func HLink(op, links, n1, n2 int) {
 		return
 	}
 	// which object was reached: the observable state of every name
-	for _, p := range []string{"/w/a", "/w/a/a", "/w/b", "/w/c", "/w/a/c", "/w/z", "/w/a/n", "/w/n", "/w/a/a/n"} {
+	for _, p := range []string{"/w/a", "/w/a/a", "/w/b", "/w/c", "/w/a/c", "/w/z", "/w/a/n", "/w/n", "/w/a/a/n", "/wb/a", "/w/ab/a", "/w/ab", "/wb"} {
 		si, c1 := impl.Lstat(p)
 		sm, c2 := model.Lstat(p)
+		if c1 == 0 && c2 == 0 && si.Kind == posix.KFile && sm.Kind == posix.KFile {
+			bi, _ := impl.ReadFile(p)
+			bm, _ := model.ReadFile(p)
+			if string(bi) != string(bm) {
+				sym.Assert(false, "C04|"+label+"|effect-on-other-object|"+shape(model, q))
+				return
+			}
+		}
 		if c1 != c2 || c1 == 0 && (si.Kind != sm.Kind || si.Perm != sm.Perm && si.Kind != posix.KLink || si.Uid != sm.Uid || si.Kind == posix.KFile && (si.Size != sm.Size || si.Nlink != sm.Nlink)) {
 			sym.Assert(false, "C04|"+label+"|effect-on-other-object|"+shape(model, q))
 			return
